@@ -122,6 +122,16 @@ pub fn gen_case(t: &mut Tape) -> Case {
     // a method with a default body that no provider overrides: implementors other than Impl<T> rely on it, and Impl<T> has to
     // reach the provider's (inherited) version. An async default needs `Self: Sync` for a Send future.
     let dflt = if t.chance(1, 3) { Some(any_async && (no_send || use_async_trait) && t.flip()) } else { None };
+    // an associated type (static selectors: `Impl<T>` takes it from `T`), used by a method of its own
+    let assoc = !dynamic && t.chance(1, 4);
+    let (assoc_decl, assoc_impl) = if assoc {
+        (
+            "    /// the tag type\n    type Tag: ::core::fmt::Debug + Default;\n    fn tag(&self, x: i32) -> Self::Tag;\n",
+            "    type Tag = (i32, u8);\n    fn tag(&self, x: i32) -> (i32, u8) { rt::trace(format!(\"TAG|{}|{}\", rt::addr(self), x)); (x, 7) }\n",
+        )
+    } else {
+        ("", "")
+    };
     let mut opts: Vec<String> = vec![];
     match selector {
         1 => opts.push("delegate_by = Self".into()),
@@ -168,6 +178,7 @@ pub fn gen_case(t: &mut Tape) -> Case {
         let (q, y) = if dasync { ("async ", "rt::yield_once().await; ") } else { ("", "") };
         src.push_str(&format!("    {q}fn dflt(&self, x: i32, y: i32) -> String {{ {y}let __r = format!(\"DFLT|{{}}|{{}},{{}}\", rt::addr(self), x, y); rt::trace(__r.clone()); __r }}\n"));
     }
+    src.push_str(assoc_decl);
     src.push_str("}\n");
     // recording providers: Rec (Sync) and NsRec (!Sync)
     // a !Sync provider cannot implement a trait whose async methods return Send futures borrowing `&self`
@@ -178,6 +189,7 @@ pub fn gen_case(t: &mut Tape) -> Case {
         for m in &methods {
             src.push_str(&format!("    {} {}\n", m.sig(false).replace("u: U", u_impl), m.body()));
         }
+        src.push_str(assoc_impl);
         src.push_str("}\n");
     }
     // application types per selector
@@ -216,6 +228,7 @@ pub fn gen_case(t: &mut Tape) -> Case {
             for m in &methods {
                 src.push_str(&format!("    {} {}\n", m.sig(false).replace("u: U", u_impl), m.body()));
             }
+            src.push_str(assoc_impl);
             src.push_str("}\n");
         }
     }
@@ -228,6 +241,7 @@ pub fn gen_case(t: &mut Tape) -> Case {
                 for m in &methods {
                     sp.push_str(&format!("    {} {}\n", m.sig(false).replace("u: U", u_impl), m.body()));
                 }
+                sp.push_str(assoc_impl);
                 sp.push_str("}\n");
             }
             _ => {
@@ -276,6 +290,14 @@ pub fn gen_case(t: &mut Tape) -> Case {
         src.push_str("        if t_direct.len() != 1 { fails.push(format!(\"HARNESS: defaulted method traced {} entries on the provider\", t_direct.len())); }\n");
         src.push_str("    }\n");
     }
+    if assoc {
+        src.push_str("    {\n        let _ = rt::take();\n        let direct = format!(\"{:?}\", Tr::tag(provider(&app), 31));\n        let t_direct = rt::take();\n");
+        src.push_str("/*GEN*/ let via = format!(\"{:?}\", Tr::tag(&app, 31));\n        let t_via = rt::take();\n");
+        src.push_str("/*GEN*/ rt::expect_eq(&mut fails, \"method returning the associated type: result through Impl<T> vs the provider\", &via, &direct);\n");
+        src.push_str("/*GEN*/ rt::expect_eq(&mut fails, \"method returning the associated type: call trace\", &t_via, &t_direct);\n");
+        src.push_str(&format!("/*GEN*/ {{ let d: <::entrait::Impl<App> as Tr{targ}>::Tag = Default::default(); rt::expect_eq(&mut fails, \"associated type of Impl<App> is the provider's\", &format!(\"{{:?}}\", d), &\"(0, 0)\".to_string()); }}\n"));
+        src.push_str("    }\n");
+    }
     let mut probes = vec![("::entrait::Impl<App>", true), ("::entrait::Impl<NoProvider>", false)];
     if dynamic || ns_provider {
         probes.push(("::entrait::Impl<NsApp>", false));
@@ -305,6 +327,9 @@ pub fn gen_case(t: &mut Tape) -> Case {
     }
     if let Some(dasync) = dflt {
         classes.push(if dasync { "defaulted_method_async" } else { "defaulted_method" });
+    }
+    if assoc {
+        classes.push("associated_type");
     }
     if any_async {
         classes.push(if use_async_trait { "async_with_async_trait" } else { "async_static" });
